@@ -17,7 +17,7 @@ RULE = ('Lane supported: per monitor kind (dt_off, dt_on, dt_on after pastify, c
         'declared-but-unused variable, inputs in permuted order; every call must return normally. Lane unsupported: a supported formula '
         'with one unsupported construct inserted at a random position (unbounded and un-pastified bounded future online, with and without '
         'pastify; prev/next/s_prev/s_next/rise/fall in dense time; bounded until in dense-time online, with and without pastify): '
-        'parse/pastify/first evaluate/first update must raise RTAMTException; another exception type or a returned value fails, also when the rejected call is repeated on the same object. Lane recover: a bounded-future specification is used without pastify() (rejected), then pastified and used again on the same object: update() must return normally with the values of an object pastified up front. '
+        'parse/pastify/first evaluate/first update must raise RTAMTException; another exception type or a returned value fails, also when the rejected call is repeated on the same object. Lane struct: the same specification over plain variables and over (nested) fields of objects, verdict optionally written into a field of an output object, online monitors optionally with reset() before the first update or between two passes over the input. Lane mixed_use: the combined classes used offline and online on one object, also interleaved (first part online, evaluate() on the whole data, the rest online with variables without further samples left out). Lane reparse_live: text replaced and parsed again on a live online monitor, values equal those of a fresh monitor (discrete and dense time). Lane recover: a bounded-future specification is used without pastify() (rejected), then pastified and used again on the same object: update() must return normally with the values of an object pastified up front. '
         'Lane struct: the same specification over plain float variables and over (nested) fields of variables of a user-defined type '
         '(import_module + declare_var(name, Type), paths value / pos.x / pos.y / aux.x of two objects), all five set-ups: the structured form returns normally and with the same values. '
         'Lane edited: the text of an object is replaced and parsed again (the previous text bound the same names to other formulas and may use other declared variables); the data supply the variables of the new text only: normal return, values of an object that only saw the new text. '
